@@ -1,0 +1,58 @@
+//go:build verif
+
+// Contracts for the HPACK codec (C18), checked by /verif/govc.
+package hpack
+
+//@ -- static table: 61 entries, never evicted
+//@ globalinv [C18:static-table-shape] staticTable != nil && len(staticTable.ents) == 61 && staticTable.evictCount == 0
+
+//@ -- table representation: ents[k] has unique id k + evictCount + 1; byName / byNameValue map to the id of the
+//@ -- NEWEST entry with that name / pair, and only to ids of live entries.
+//@ pure func idLive(t *headerFieldTable, id uint64) bool = t.evictCount < id && id <= t.evictCount + len(t.ents)
+//@ -- unique ids are 64-bit counters; the code's own comment argues they cannot run out in practice. Stated as a precondition.
+//@ pure func idRoom(t *headerFieldTable) bool = t.evictCount + len(t.ents) < 4611686018427387904
+//@ pure func tabInv(t *headerFieldTable) bool = t.byName != nil && t.byNameValue != nil && t.evictCount + len(t.ents) < 9223372036854775807 && (forall nm string :: mapHas(t.byName, nm) ==> idLive(t, mapGet(t.byName, nm)) && t.ents[mapGet(t.byName, nm) - t.evictCount - 1].Name == nm) && (forall pr pairNameValue :: mapHas(t.byNameValue, pr) ==> idLive(t, mapGet(t.byNameValue, pr)) && t.ents[mapGet(t.byNameValue, pr) - t.evictCount - 1].Name == pr.name && t.ents[mapGet(t.byNameValue, pr) - t.evictCount - 1].Value == pr.value)
+
+//@ func (*headerFieldTable).len :: t -> n
+//@   props C18
+//@   requires t != nil
+//@   assigns nothing
+//@   ensures n == len(t.ents)
+
+//@ func (*headerFieldTable).addEntry :: t, f
+//@   props C18
+//@   requires t != nil && tabInv(t)
+//@   requires [C18:id-space-not-exhausted] idRoom(t)
+//@   assigns t.ents, mapOf(t.byName), mapOf(t.byNameValue)
+//@   ensures [C18:entry-appended-as-newest] t.ents == old(t.ents) ++ seq[HeaderField]{f}
+//@   ensures [C18:table-index-consistent] tabInv(t)
+//@   ensures [C18:new-entry-findable] mapHas(t.byName, f.Name) && mapGet(t.byName, f.Name) == t.evictCount + len(t.ents)
+
+//@ func (*headerFieldTable).idToIndex :: t, id -> i
+//@   props C18,C10
+//@   requires t != nil
+//@   requires [C18:id-refers-to-live-entry] idLive(t, id)
+//@   assigns nothing
+//@   ensures [C18:index-of-id] t != staticTable ==> i == len(t.ents) - (id - t.evictCount - 1)
+//@   ensures t == staticTable ==> i == id - t.evictCount
+
+//@ func (*headerFieldTable).search :: t, f -> i, nameValueMatch
+//@   props C18,C10
+//@   requires t != nil && tabInv(t)
+//@   assigns nothing
+//@   ensures [C18:search-result-in-range] i <= len(t.ents) && (nameValueMatch ==> i > 0)
+//@   ensures [C18:dynamic-search-names-the-entry] t != staticTable && i > 0 ==> t.ents[len(t.ents) - i].Name == f.Name && (nameValueMatch ==> t.ents[len(t.ents) - i].Value == f.Value && !f.Sensitive)
+//@   ensures [C18:static-search-names-the-entry] t == staticTable && i > 0 ==> t.ents[i - 1].Name == f.Name && (nameValueMatch ==> t.ents[i - 1].Value == f.Value && !f.Sensitive)
+
+//@ func (*headerFieldTable).evictOldest :: t, n
+//@   props C18,C10
+//@   requires t != nil && tabInv(t)
+//@   requires [C18:evict-at-most-all] 0 <= n && n <= len(t.ents)
+//@   assigns t.ents, t.evictCount, mapOf(t.byName), mapOf(t.byNameValue)
+//@   ensures [C18:oldest-entries-dropped] t.ents == old(t.ents)[n:] && t.evictCount == old(t.evictCount) + n
+//@   ensures [C18:table-index-consistent] tabInv(t)
+//@   loop 1 invariant 0 <= k && k <= n && t.ents == old(t.ents) && t.evictCount == old(t.evictCount) && t.byName != nil && t.byNameValue != nil
+//@   loop 1 invariant forall nm string :: mapHas(t.byName, nm) ==> idLive(t, mapGet(t.byName, nm)) && mapGet(t.byName, nm) - t.evictCount - 1 >= k && t.ents[mapGet(t.byName, nm) - t.evictCount - 1].Name == nm
+//@   loop 1 invariant forall pr pairNameValue :: mapHas(t.byNameValue, pr) ==> idLive(t, mapGet(t.byNameValue, pr)) && mapGet(t.byNameValue, pr) - t.evictCount - 1 >= k && t.ents[mapGet(t.byNameValue, pr) - t.evictCount - 1].Name == pr.name && t.ents[mapGet(t.byNameValue, pr) - t.evictCount - 1].Value == pr.value
+//@   loop 2 invariant len(t.ents) == len(old(t.ents)) && len(t.ents) - n <= k#2 && k#2 <= len(t.ents) && t.evictCount == old(t.evictCount) && n <= len(t.ents) && (forall j int :: 0 <= j && j < len(t.ents) - n ==> t.ents[j] == old(t.ents)[j + n])
+//@   loop 2 assigns t.ents
